@@ -6,7 +6,7 @@ CONSTANTS
   Q = 100
   InitHead = 2
   MaxR = 4
-  Froms = {0, 1, 2, 3}
+  Froms = {0, 1, 2, 3, 4, 5, 1000}
   Backend = "bolt"
   Buf = 100
   Remap = FALSE
